@@ -28,6 +28,9 @@
 (*   frame_len   fuzz frame length 0, 1, exact-1, exact+1, 2^32-1                   *)
 (*   frame_tag   fuzz frame with an undefined message type                          *)
 (*   pad_bits    each padding bit of a bitfield set, one at a time                  *)
+(*   nat_cut     the input ends inside a natural / length prefix of each of the 8   *)
+(*               prefix classes (0x80.. 0xFF first octet) with 0..l of its l value   *)
+(*               octets present; in a fuzz frame the frame length is made consistent *)
 (* K bounds how many marks of each class are used (evenly spaced over the layout).  *)
 EXTENDS Schema, FiniteSetsExt
 
@@ -133,6 +136,10 @@ NonMinForms(v8) ==
   \cup (IF c < 2 /\ v8[3] < 32 /\ \A i \in 4..8 : v8[i] = 0 THEN {<<192 + v8[3], v8[1], v8[2]>>} ELSE {})
   \cup (IF c < 8 THEN {<<255>> \o v8} ELSE {})
 
+\* first octet of a natural announcing l following octets (all value bits set)
+PrefixOctet(l) == IF l = 8 THEN 255 ELSE 256 - Pow2(8 - l) + (Pow2(7 - l) - 1)
+\* a fuzz frame whose length field is recomputed from the bytes that follow it
+FixFrame(ty, b) == IF ty.k = "frame" /\ Len(b) >= 5 THEN LE(Len(b) - 4, 4) \o Sub(b, 5, Len(b)) ELSE b
 U32MAX == <<255, 255, 255, 255, 0, 0, 0, 0>>
 P63 == <<0, 0, 0, 0, 0, 0, 0, 128>>
 U64MAX == Rep(255, 8)
@@ -166,6 +173,12 @@ Mutants(ty, v, K) ==
   \cup UNION {{Case("len_set", Splice(b, m.p, m.n, EncLen(n))) : n \in {0, 1, 128} \ {SmallNat(m.x)}} : m \in SeqSet(Pick(OfClass(ms, {"len"}), 4 * K))}
   \cup UNION {{Case("len_set", Splice(b, m.p, 2, LE(n, 2))) : n \in {0, 1, 128} \ {SmallNat(m.x)}} : m \in SeqSet(cnt16)}
   \cup UNION {{Case("nonmin", Splice(b, m.p, m.n, f)) : f \in NonMinForms(m.x)} : m \in SeqSet(nats)}
+  \* the input ENDS inside a natural / length prefix of every prefix class: first octet announcing l more octets, j <= l of
+  \* them present (all j for the 9-octet form; none, all but one, all for the others).  In a fuzz frame the frame length is
+  \* made consistent with the shortened payload, so that the cut reaches the payload decoder.
+  \cup UNION {UNION {{Case("nat_cut", FixFrame(ty, Sub(b, 1, m.p) \o <<PrefixOctet(l)>> \o Rep(255, j)))
+                      : j \in (IF l = 8 THEN 0..8 ELSE {0, l - 1, l})} : l \in 1..8}
+              : m \in SeqSet(Pick(nats, Min2(K, 2)))}
   \cup UNION {{Case("flip", SetByte(b, m.p, FlipBit(b[m.p + 1], bit))) : bit \in {1, 128}} : m \in {m \in SeqSet(every) : m.n >= 1}}
   \cup UNION {{Case("att_len", Splice(b, m.p, m.n, EncNat(a))) : a \in AttackLens(b, m)} : m \in SeqSet(lens)}
   \cup UNION {UNION {{Case("att_len2", Splice(Splice(b, m2.p, m2.n, EncNat(a2)), m1.p, m1.n, EncNat(a1)))
